@@ -29,7 +29,7 @@ type bbBallotDesc struct {
 	Round   uint64
 	Kind    string // init, initX (conflicting fact), initExpel, sc, accept, acceptX, acceptExpel
 	Node    int    // signer index; n = foreign node
-	ExpelBy string // full, one, foreign (who signed the expel operation carried by the ballot)
+	ExpelBy string // full, one, foreign, expired (who signed the expel operation carried by the ballot)
 	Key     string // "", "wrongkey": node address signed with the foreign node's key
 }
 
@@ -123,6 +123,11 @@ func (w *bbWorld) expels(h int64, by string) []base.SuffrageExpelOperation {
 		signers = append(append([]base.LocalNode(nil), w.live()...), w.locals[w.n])
 	default:
 		signers = w.live()
+	}
+
+	if by == "expired" {
+		// valid operation, valid in a ballot (start <= ballot height), but no longer valid at the ballot's height
+		return []base.SuffrageExpelOperation{gen.Expel(target, base.Height(h)-2, base.Height(h)-1, signers)}
 	}
 
 	return []base.SuffrageExpelOperation{gen.Expel(target, base.Height(h), base.Height(h)+1, signers)}
@@ -386,7 +391,7 @@ func genBBDesc(w *bbWorld) *rapid.Generator[bbBallotDesc] {
 			Height: int64(rapid.IntRange(33, 35).Draw(t, "height")),
 			Round:  uint64(rapid.SampledFrom([]int{0, 0, 0, 1, 2}).Draw(t, "round")),
 			Kind:   rapid.SampledFrom(w.kinds).Draw(t, "kind"),
-			ExpelBy: rapid.SampledFrom([]string{"full", "full", "full", "one", "foreign"}).Draw(t, "expelBy"),
+			ExpelBy: rapid.SampledFrom([]string{"full", "full", "full", "one", "foreign", "expired"}).Draw(t, "expelBy"),
 		}
 
 		// mostly suffrage members; sometimes the foreign node (index n)
